@@ -1013,7 +1013,7 @@ Proof. intros. unfold dctx_frame_gen. apply dsame_dict_stage. Qed.
 Lemma dsame_bad : forall st d, dsame d (dctx_bad_gen st d).
 Proof. intros. unfold dctx_bad_gen. apply dsame_dict_stage. Qed.
 Lemma dsame_fx : forall st d k, dsame d (dctx_fx_gen st d k).
-Proof. intros. unfold dctx_fx_gen. apply dsame_dict_stage. Qed.
+Proof. intros. unfold dctx_fx_gen. cbv zeta. destruct (_ && _ && _); apply dsame_dict_stage. Qed.
 Lemma dsame_dec_stream : forall st d f, dsame d (fst (dctx_dec_stream_gen st d f)).
 Proof. intros. unfold dctx_dec_stream_gen. destruct (dd_stream_header _ _ _ _). cbn [fst]. apply dsame_dict_stage. Qed.
 Lemma dsame_dec_oneshot : forall st d fs, dsame d (fst (dctx_dec_oneshot_gen st d fs)).
@@ -1127,6 +1127,7 @@ Proof.
   - replace d with (fst (dctx_refddict (get_d w o0) k)) by (rewrite E; reflexivity). apply dsame_dparams, dsame_refddict.
   - replace d with (fst (dctx_load (get_d w o0) k)) by (rewrite E; reflexivity). apply dsame_dparams, dsame_load.
   - replace d with (fst (dctx_refprefix (get_d w o0) k)) by (rewrite E; reflexivity). apply dsame_dparams, dsame_refprefix.
+  - apply dsame_dparams. unfold dctx_fx. apply dsame_fx.
   - replace d with (fst (dctx_dec_stream (get_d w o0) f)) by (rewrite E; reflexivity). apply dsame_dparams, dsame_dec_stream.
   - replace d with (fst (dctx_dec_oneshot (get_d w o0) fs)) by (rewrite E; reflexivity). apply dsame_dparams, dsame_dec_oneshot.
   - replace d with (fst (dctx_dec_using (get_d w o0) k f)) by (rewrite E; reflexivity). apply dsame_dparams, dsame_dec_using.
